@@ -398,3 +398,22 @@ def h_client_find_slot(cc, gc, ncr, co, ngr, go, lfs, lreq, nc=2):
     # giving it back restores the node exactly
     real(node.deallocate_slot, slot)
     check(_client_snapshot([node]) == pre, 'deallocate_slot does not restore')
+
+
+# ------------------------------------------------------------------------------
+@obligation(params={'ca': (0, 15), 'cb': (0, 3), 'ncr': (1, 2), 'n': (1, 3),
+                    'co': (0, 1)},
+            partition={'quick': ('ca', 16), 'thorough': ('ca', 16)},
+            timeout={'quick': 300, 'thorough': 900},
+            funcs=['radical/pilot/resource_config.py:NodeList.find_slots',
+                   'radical/pilot/resource_config.py:Node.find_slot',
+                   'radical/pilot/resource_config.py:Node.deallocate_slot'],
+            bounds='client-side NodeList of 2 nodes x 2 cores; node A all 16 '
+                   'occupancy states, node B from 4; request 1..2 cores per '
+                   'rank at occupation {.5,1}, 1..3 slots (incl. requests '
+                   'which fail after slots were collected on the first node)')
+def h_client_find_slots(ca, cb, ncr, n, co):
+    """NodeList.find_slots: grants stay within occupation 1; a failed request
+    gives back exactly what it had collected, on the node it came from"""
+    import harness.c02 as c02
+    c02.h_client_find_slots(ca, cb, ncr, n, co, 0, bfull=False)
